@@ -164,6 +164,62 @@ func TestVerifDriver(t *testing.T) {
 						res = fmt.Sprintf("OVER-BUDGET admitted=%d max_requests=%d round=%d", worst, mx, worstRound)
 					}
 				}
+			case "notifyrace":
+				// notifyrace <callers> <rounds>: state changes made by concurrent requests while an
+				// observer (which reads the breaker, as the balancer's does) is still being notified
+				// of the previous one; a round that does not finish within 3 s is a deadlock
+				if len(w) == 4 {
+					callers, _ := strconv.Atoi(w[2])
+					rounds, _ := strconv.Atoi(w[3])
+					if callers < 2 || callers > 64 || rounds < 1 || rounds > 100000 {
+						break
+					}
+					res = "live"
+					for r := 0; r < rounds && res == "live"; r++ {
+						verifclock.Set(0)
+						var b *CircuitBreaker
+						b = NewCircuitBreaker(Settings{Name: "n", FailureThreshold: 1, SuccessThreshold: 1,
+							MaxRequests: uint32(callers), Interval: time.Hour, Timeout: time.Millisecond,
+							OnStateChange: func(name string, from, to State) {
+								runtime.Gosched()
+								_, _, _ = b.Counts()
+								_ = b.State()
+							}})
+						_ = b.Execute(func() error { return fmt.Errorf("boom") })
+						verifclock.Set(int64(2 * time.Millisecond))
+						var ready, goFlag int32
+						var all sync.WaitGroup
+						for c := 0; c < callers; c++ {
+							all.Add(1)
+							go func(c int) {
+								defer all.Done()
+								atomic.AddInt32(&ready, 1)
+								for atomic.LoadInt32(&goFlag) == 0 {
+								}
+								for k := 0; k < 4; k++ {
+									_ = b.Execute(func() error {
+										if (c+k)%2 == 0 {
+											return fmt.Errorf("boom")
+										}
+										return nil
+									})
+									verifclock.Set(int64(time.Duration(4+k) * time.Millisecond))
+								}
+							}(c)
+						}
+						for atomic.LoadInt32(&ready) < int32(callers) {
+							runtime.Gosched()
+						}
+						atomic.StoreInt32(&goFlag, 1)
+						fin := make(chan struct{})
+						go func() { all.Wait(); close(fin) }()
+						select {
+						case <-fin:
+						case <-time.After(3 * time.Second):
+							res = fmt.Sprintf("DEADLOCK round=%d: requests and state reads hang while a state change is being notified", r)
+						}
+					}
+				}
 			case "begin":
 				if len(w) == 4 && cb != nil && fl[w[2]] == nil {
 					now, e := strconv.ParseInt(w[3], 10, 64)
